@@ -1,12 +1,123 @@
-(* C14 — difficulty checks. Property theorems only; proofs live in Proofs/DifficultyProofs.v *)
-From LC Require Import Difficulty.
+(* C14 — Difficulty checks accept every legal difficulty history and bound illegal ones.
+   Property theorems only: each is closed by [exact] of a lemma from Proofs/ and followed by
+   Print Assumptions.  Model: Model/Difficulty.v (verify_tau, verify_total_difficulty and the
+   EpochDifficultyTrend methods of send_last_state_proof.rs).
+
+   Full statement of completeness (FALSE of the code, see C14_complete_total_refuted):
+     forall legal histories h, verify_history h = Ok tt.
+   What is proved instead: C14_complete_total_partial (legal histories are never rejected
+   except by the step-2 range estimate, and always accepted with at most one epoch switch). *)
+From Coq Require Import NArith List.
+From LC Require Import Difficulty DifficultyProofs DifficultyProofs2 DifficultyHistory.
+Import ListNotations.
 Open Scope N_scope.
 
+(* -- completeness: the tau check accepts every legal sequence of epoch difficulties -- *)
+Theorem C14_complete_tau :
+  forall tau se sct sbd ee ect ebd (ds : list N),
+    1 <= tau ->
+    e_num ee = e_num se + lenN ds ->
+    (ds = [] -> sct = ect) ->
+    sbd * e_len se <= U256MAX -> ebd * e_len ee <= U256MAX ->
+    legal_seq tau (sbd * e_len se) ds ->
+    last ds (sbd * e_len se) = ebd * e_len ee ->
+    verify_tau se sct sbd ee ect ebd tau = Ok true.
+Proof. exact verify_tau_complete. Qed.
+Print Assumptions C14_complete_tau.
+
+(* -- the tau check is exactly the tau^n bound -- *)
+Theorem C14_sound_tau :
+  forall tau s e n,
+    1 <= tau -> s <= U256MAX -> e <= U256MAX ->
+    check_tau (trend_new s e) tau n = true -> e <= s * tau ^ n /\ s / tau ^ n <= e.
+Proof. exact check_tau_sound. Qed.
+Print Assumptions C14_sound_tau.
+
+(* -- completeness of the total-difficulty check, the part that holds -- *)
+Theorem C14_complete_total_partial :
+  forall tau snum first sidx rest eidx std,
+    1 <= tau ->
+    legal_history tau first sidx rest eidx ->
+    snum + lenN rest <= U24MAX ->
+    std + hist_total first sidx rest eidx <= U256MAX ->
+    let r := verify_history tau snum first sidx rest eidx std in
+    (lenN rest <= 1 -> r = Ok tt) /\
+    (r = Ok tt \/ r = Err E_BELOW_MIN \/ r = Err E_ABOVE_MAX).
+Proof. exact verify_history_complete_partial. Qed.
+Print Assumptions C14_complete_total_partial.
+
+(* -- the full completeness statement is refuted by a concrete legal history -- *)
+Theorem C14_complete_total_refuted :
+  exists tau snum first sidx rest eidx std,
+    legal_history tau first sidx rest eidx /\
+    verify_history tau snum first sidx rest eidx std = Err E_ABOVE_MAX.
+Proof.
+  exists 2, 11, wit_first, 0, wit_rest, 0, 256. split; [exact wit_legal | exact wit_rejected].
+Qed.
+Print Assumptions C14_complete_total_refuted.
+
+(* -- non-vacuity: a multi-epoch legal history that is accepted -- *)
+Theorem C14_complete_total_nonvacuous :
+  legal_history 2 wit_first 3 ok_rest 4 /\ verify_history 2 11 wit_first 3 ok_rest 4 256 = Ok tt.
+Proof. split; [exact ok_legal | exact ok_accepted]. Qed.
+Print Assumptions C14_complete_total_nonvacuous.
+
+(* -- soundness: decrease, exact match within one epoch / across one switch, too fast -- *)
 Theorem C14_sound_decrease :
   forall se sbd std ee ebd etd tau,
     etd < std -> verify_total_difficulty se sbd std ee ebd etd tau = Err E_DECREASED.
 Proof.
   intros se sbd std ee ebd etd tau H. unfold verify_total_difficulty.
-  destruct (N.ltb_spec etd std) as [_|Hge]; [reflexivity | lia].
+  rewrite (proj2 (N.ltb_lt etd std) H). reflexivity.
 Qed.
 Print Assumptions C14_sound_decrease.
+
+Theorem C14_sound_same_epoch :
+  forall se sbd std ee ebd etd tau,
+    e_num se = e_num ee ->
+    verify_total_difficulty se sbd std ee ebd etd tau = Ok tt ->
+    std <= etd /\ e_idx se <= e_idx ee /\ etd - std = sbd * (e_idx ee - e_idx se).
+Proof. exact verify_td_sound_same_epoch. Qed.
+Print Assumptions C14_sound_same_epoch.
+
+Theorem C14_sound_one_switch :
+  forall se sbd std ee ebd etd tau,
+    e_num ee = e_num se + 1 ->
+    verify_total_difficulty se sbd std ee ebd etd tau = Ok tt ->
+    std <= etd /\ e_idx se < e_len se /\
+    etd - std = sbd * (e_len se - e_idx se - 1) + ebd * (e_idx ee + 1).
+Proof. exact verify_td_sound_one_switch. Qed.
+Print Assumptions C14_sound_one_switch.
+
+Theorem C14_sound_too_fast_growth :
+  forall se sbd std ee ebd etd tau,
+    1 <= tau -> e_num se < e_num ee ->
+    ebd * e_len ee <= U256MAX ->
+    sbd * e_len se * tau ^ (e_num ee - e_num se) < ebd * e_len ee ->
+    is_ok (verify_total_difficulty se sbd std ee ebd etd tau) = false.
+Proof. exact verify_td_too_fast_inc. Qed.
+Print Assumptions C14_sound_too_fast_growth.
+
+Theorem C14_sound_too_fast_shrink :
+  forall se sbd std ee ebd etd tau,
+    0 < tau -> e_num se < e_num ee ->
+    ebd * e_len ee < sbd * e_len se / tau ^ (e_num ee - e_num se) ->
+    is_ok (verify_total_difficulty se sbd std ee ebd etd tau) = false.
+Proof. exact verify_td_too_fast_dec. Qed.
+Print Assumptions C14_sound_too_fast_shrink.
+
+(* -- never aborts, whatever numbers a peer supplies (field ranges of the wire format;
+      block difficulties below the PoW-feasibility bound 2^192) -- *)
+Theorem C14_no_panic_tau :
+  forall se sct sbd ee ect ebd tau,
+    sbd * e_len se <= U256MAX -> ebd * e_len ee <= U256MAX ->
+    is_panic (verify_tau se sct sbd ee ect ebd tau) = false.
+Proof. exact verify_tau_no_panic. Qed.
+Print Assumptions C14_no_panic_tau.
+
+Theorem C14_no_panic_total :
+  forall se sbd std ee ebd etd tau,
+    ranges se ee -> sbd <= BD_MAX -> ebd <= BD_MAX -> 0 < tau ->
+    is_panic (verify_total_difficulty se sbd std ee ebd etd tau) = false.
+Proof. exact verify_td_no_panic. Qed.
+Print Assumptions C14_no_panic_total.
